@@ -369,7 +369,8 @@ def _jl_nodes(qs, style):
         if s[0] != "a":
             d["@id"] = _jl_id(s)
         for q in qs_:
-            d.setdefault(q[1][1], []).append(obj(q[2]))
+            key = q[1][1] if q[1][0] == "i" else "_:" + q[1][1]      # blank-node property key (generalized RDF)
+            d.setdefault(key, []).append(obj(q[2]))
         return d
 
     nodes, seen = [], set()
